@@ -18,7 +18,9 @@ MODELS = ['fmt_stub', 'HfSerialize', 'FrameFeed', 'HpackDec', 'CellBytes', 'Froz
 NAME_LENS = [0, 1, 2, 3, 4, 5, 6, 7, 9, 10, 16, 17]
 BOUNDS = {
     'block positions': 'request (server), response, informational response, trailers (both '
-                       'roles), pushed request (client)',
+                       'roles), pushed request (client), extended CONNECT request; the '
+                       'pseudo-header fields of request / pushed request / extended CONNECT in '
+                       'every order',
     'configurations': 'validate_inbound_headers x normalize_inbound_headers x header_encoding in '
                       '{None, utf-8}',
     'symbolic content': 'ONE header field with a fully symbolic name of length 0..7, 9, 10, 16, 17 '
@@ -47,14 +49,17 @@ BASE = {
     'trailers': [(b'x-trailer', b'v')],
     'push': [(b':method', b'GET'), (b':scheme', b'https'), (b':authority', b'example.com'),
              (b':path', b'/pushed')],
+    # RFC 8441 extended CONNECT
+    'connect': [(b':method', b'CONNECT'), (b':protocol', b'websocket'), (b':scheme', b'https'),
+                (b':path', b'/chat'), (b':authority', b'example.com'), (b'origin', b'x')],
 }
-KIND_OF = {'request': 'request', 'request-host': 'request', 'response': 'response',
+KIND_OF = {'connect': 'request', 'request': 'request', 'request-host': 'request', 'response': 'response',
            'informational': 'informational', 'trailers': 'trailers', 'push': 'push'}
 
 
 def _ctx(block, cfg):
     """endpoint in the state where the block is about to arrive; returns (ctx, frame)"""
-    if block in ('request', 'request-host'):
+    if block in ('request', 'request-host', 'connect'):
         ctx = ops.Ctx(False, cfg=cfg)
         f = hf.HeadersFrame(1)
     elif block == 'trailers':
@@ -88,6 +93,12 @@ def build_headers(block, variant, nlen, vlen):
         pos = sym_choice('position', ['first', 'after-pseudo', 'last'])
         i = {'first': 0, 'after-pseudo': _pseudo_count(block), 'last': len(base)}[pos]
         base.insert(i, (name, value))
+    elif variant == 'order':
+        # the pseudo-header fields in any order (solver-chosen permutation)
+        import itertools
+        k = _pseudo_count(block)
+        perm = sym_choice('order', list(itertools.permutations(range(k))))
+        base = [base[i] for i in perm] + base[k:]
     elif variant == 'path':
         base = [(n, sym_cells('path', vlen) if n == b':path' else v) for n, v in base]
     elif variant == 'te':
@@ -213,6 +224,12 @@ def shards(tier, seed):
     cfgs = CFGS if tier == 'thorough' else [CFGS[0], CFGS[1], CFGS[2], CFGS[4]]
     nlens = NAME_LENS if tier == 'thorough' else [0, 1, 2, 4, 5, 6, 7, 10, 17]
     vlens = [0, 1, 2, 3] if tier == 'thorough' else [0, 2]
+    for block in ('request', 'push', 'connect'):
+        out.append(Shard('%s/%s/pseudo-header-order' % (block, cfg_name(CFGS[0])),
+                         make(block, CFGS[0], 'order', 0, 0), twin=False, expect=['delivered']))
+    for nlen in (7, 9):
+        out.append(Shard('connect/%s/extra/name=%d/value=2' % (cfg_name(CFGS[0]), nlen),
+                         make('connect', CFGS[0], 'extra', nlen, 2), budget=90, twin=False))
     for block in blocks:
         for cfg in cfgs:
             if tier == 'quick' and cfg is not CFGS[0] and block not in ('request', 'response'):
